@@ -93,6 +93,13 @@ type (
 	RecB   struct{ A []RecA }
 	RecMap struct{ M map[string]RecMap }
 
+	// named unsupported non-struct types
+	NFunc    func()
+	NChan    chan int
+	NIntMap  map[int]string
+	NFuncs   []NFunc
+	NComplex complex128
+
 	// unsupported kinds at depth
 	HasChan struct {
 		X int
@@ -131,6 +138,8 @@ var Pool = []PoolEntry{
 	{"PtrEmbed", reflect.TypeFor[PtrEmbed](), "struct"}, {"Deep", reflect.TypeFor[Deep](), "struct"}, {"WithUnexp", reflect.TypeFor[WithUnexp](), "struct"},
 	{"Mixed", reflect.TypeFor[Mixed](), "struct"}, {"Described", reflect.TypeFor[Described](), "struct"},
 	{"Rec", reflect.TypeFor[Rec](), "recursive"}, {"RecA", reflect.TypeFor[RecA](), "recursive"}, {"RecB", reflect.TypeFor[RecB](), "recursive"}, {"RecMap", reflect.TypeFor[RecMap](), "recursive"},
+	{"NFunc", reflect.TypeFor[NFunc](), "unsupported"}, {"NChan", reflect.TypeFor[NChan](), "unsupported"}, {"NIntMap", reflect.TypeFor[NIntMap](), "unsupported"},
+	{"NFuncs", reflect.TypeFor[NFuncs](), "unsupported"}, {"NComplex", reflect.TypeFor[NComplex](), "unsupported"},
 	{"HasChan", reflect.TypeFor[HasChan](), "unsupported"}, {"HasFunc", reflect.TypeFor[HasFunc](), "unsupported"}, {"HasComplex", reflect.TypeFor[HasComplex](), "unsupported"},
 	{"HasIntMap", reflect.TypeFor[HasIntMap](), "unsupported"}, {"DeepBad", reflect.TypeFor[DeepBad](), "unsupported"},
 	{"time.Time", reflect.TypeFor[time.Time](), "std"}, {"slog.Level", reflect.TypeFor[slog.Level](), "std"},
@@ -440,6 +449,34 @@ func (g *tg) structTD(depth int, addressable bool) *TD {
 		}
 		used[name] = true
 		f := FD{Name: name, T: g.td(depth-1, addressable)}
+		if len(td.Fields) > 0 && g.n(4, "repeat-type") == 0 {
+			// the same type occurring several times in one call (plain, behind a pointer, in a slice)
+			prev := td.Fields[g.n(len(td.Fields), "repeat-of")]
+			if !prev.Embedded {
+				base := prev.T
+				for base.K == "ptr" {
+					base = base.Elem
+				}
+				switch g.n(4, "repeat-as") {
+				case 0:
+					f.T = base
+				case 1:
+					f.T = &TD{K: "ptr", Elem: base}
+				case 2:
+					if base.K != "uint8" {
+						f.T = &TD{K: "slice", Elem: base}
+					}
+				default:
+					if mentionsPtrRecvMarshaler(base) {
+						// map values are not addressable: a pointer-receiver marshaler held by value there
+						// is outside the domain, so it goes behind a pointer
+						f.T = &TD{K: "map", Elem: &TD{K: "ptr", Elem: base}}
+					} else {
+						f.T = &TD{K: "map", Elem: base}
+					}
+				}
+			}
+		}
 		if g.n(12, "unexported") == 0 {
 			f.Name = "u" + name
 			f.Unexp = true
@@ -458,6 +495,18 @@ func (g *tg) structTD(depth int, addressable bool) *TD {
 		td.Fields = append(td.Fields, f)
 	}
 	return td
+}
+
+func mentionsPtrRecvMarshaler(td *TD) bool {
+	found := false
+	td.Walk(func(x *TD) {
+		if x.K == "pool" {
+			if p, ok := poolByName(x.Pool); ok && p.Class == "stdptrrecv" {
+				found = true
+			}
+		}
+	})
+	return found
 }
 
 // validTagName mirrors encoding/json's isValidTag.
